@@ -56,7 +56,7 @@ theorem npc_step {val : Val} {voters : List Id} {c c' : Cluster} {s : Spec.State
     obtain ⟨h1, h2⟩ := K.sync hnode (hR.rs.ra.aux n rn hn) (hR.rs.settled n rn hn) (hR.rs.prom n rn hn) reach
       (hN.1 n rn hn) hrun
     exact hN.lift n rn' rd.messages h1 h2
-  | crash n rn rn' cfg draws hn hnv hid hpv hcq has happ hnew =>
+  | crash n rn rn' cfg draws hn hnv hid hpv has happ hnew =>
     have hnode := hR.rs.ra.base.nodes n rn hn
     exact hN.lift0 n rn' (npinv_restart hnode (hR.rs.settled n rn hn) (hR.dur n rn hn) hsorted h0 happ hnew)
 
@@ -64,7 +64,7 @@ theorem npc_step {val : Val} {voters : List Id} {c c' : Cluster} {s : Spec.State
 theorem npc_init {voters : List Id} {c0 : Cluster} (hsorted : voters.Pairwise (· < ·)) (h0 : 0 ∉ voters)
     (hc : InitCluster voters c0) : NPC c0 := by
   refine ⟨fun n rn hn => ?_, fun x hx => by rw [hc.1] at hx; cases hx⟩
-  obtain ⟨hmem, cfg, draws, _, _, _, _, happ, hnew⟩ := hc.2 n rn hn
+  obtain ⟨hmem, cfg, draws, _, _, _, happ, hnew⟩ := hc.2 n rn hn
   exact npinv_init (fun hz => h0 (hz ▸ hmem)) hsorted h0 happ hnew
 
 /-- every reachable cluster is related to a reachable Spec state and satisfies `NPC` -/
